@@ -104,6 +104,9 @@ func execC14(raw json.RawMessage) (res execResult, err error) {
 			conj := be.NewConjunction()
 			conj.In(fieldName(1000+n), []int{1, 2, 3})
 			conj.In(fieldName(0), []int{1, 2, 3, 4, 5, 6})
+			if _, ok := c.Configs[3000]; ok { // the first use of a field configured (with an empty option) before publication
+				conj.In(fieldName(3000), []int{1, 2})
+			}
 			d.AddConjunction(conj, be.NewConjunction())
 			safeCall(func() { b.AddDocument(d) })
 		case 2:
@@ -152,6 +155,19 @@ func init() {
 				}
 				for k := 1 + r.Intn(19); k > 0; k-- {
 					ops = append(ops, r.Intn(4))
+				}
+				// a field configured with an empty option before publication that no document of the published
+				// generation uses; later generations are the first to use it
+				if i%3 != 2 {
+					if c.Configs == nil {
+						c.Configs = map[int]string{}
+					}
+					c.Configs[3000] = ""
+					for j := range c.Queries {
+						if r.Chance(40) {
+							c.Queries[j].A = setAssign(c.Queries[j].A, 3000, pick(r, []TV{tvBool(true), {T: "other:map"}, tvInt("int", 2), tvSlice("[]bool", tvBool(true))}))
+						}
+					}
 				}
 				// second half: also values no parser supports on the fields the builder introduces later; the
 				// published index does not know these fields and must keep ignoring them
